@@ -7,37 +7,37 @@ ids = [json.loads(l)["id"] for l in open(f"{V}/properties.jsonl")]
 # id -> (technique, level text, level note, design ref)
 CHECKS = {
  "C02": ("exhaustive enumeration of (content type, declared length, cut point) + proptest-generated records, reference header decoder and pointer-identity oracle",
-         "Every declared length 0..65535 for 17 (quick) / all 256 (thorough) content types is framed through the three record parsers at ten cut points each, and thousands of generated records (valid content of every type, random payloads, inner-overlong heartbeat/handshake) are cut at every prefix; the oracle states the iff of the streaming contract, the exact Needed value, the TooLarge cap and pointer identity of payload and remainder. The cap boundary and the Incomplete contract are finite statements about small integers, so enumeration settles them for the enumerated types; payload-dependent behaviour is sampled.",
+         "Every declared length 0..65535 for 17 (quick) / all 256 (thorough) content types is framed through the three record parsers at ten cut points each, and thousands of generated records (valid content of every type, random payloads, inner-overlong heartbeat/handshake) are cut at every prefix; the oracle states the iff of the streaming contract, the exact Needed value, the TooLarge cap and pointer identity of payload and remainder (also when they are empty), and nom's recognize over each parser must return exactly the consumed bytes; openers of 44 other protocols are framed like any other header. The cap boundary and the Incomplete contract are finite statements about small integers, so enumeration settles them for the enumerated types; payload-dependent behaviour is sampled.",
          "Trusts the hand-written 5-byte header decoder in the harness; plaintext content acceptance is not judged here (C03).", "4/C02"),
  "C03": ("proptest-generated message lists with an RFC reference encoder, one-step vs two-step differential, targeted negative and tail families",
-         "Generated records of all five content types (1..12 messages, all alert codes, 17 handshake kinds, app data 0..16640, heartbeat with padding) must decode to exactly the model messages by both routes; empty / cut-short / malformed-first / unknown-type records must be rejected by both routes; valid prefix + invalid tail must yield the prefix and the tail as two-step remainder; on corrupted and random records the two routes must agree.",
+         "Generated records of all five content types (1..12 messages, all alert codes, 17 handshake kinds, app data 0..16640, heartbeat with padding) must decode to exactly the model messages by both routes; empty / cut-short / malformed-first / unknown-type records must be rejected by both routes; valid prefix + invalid tail must yield the prefix and the tail as two-step remainder; on corrupted and random records the two routes must agree; handshake messages of 64 KiB, 10 MiB +- 1 and 2^24 - 1 body bytes followed by a second message through the payload parser.",
          "Trusts the harness's RFC encoders (vmodel) and the field-by-field conversion of parsed values; sampling, not exhaustive.", "4/C03"),
  "C04": ("proptest-generated handshake values with an RFC reference encoder (round-trip incl. every public body parser), targeted single-field corruptions, exhaustive type-code sweep",
-         "Round-trip over generated values of the 17 variants with boundary-weighted field ranges and trailing bytes shaped like a continuation; each rejection rule of the statement instantiated by one targeted edit of a valid encoding, checked stand-alone and inside a record; two encodings that decode to field-wise different values must not compare equal; all 256 type codes x 3 body shapes; bodies up to 2^24-1.",
+         "Round-trip over generated values of the 17 variants with boundary-weighted field ranges and trailing bytes shaped like a continuation; each rejection rule of the statement instantiated by one targeted edit of a valid encoding, checked stand-alone and inside a record; two encodings that decode to field-wise different values must not compare equal, clones and clone_from copies (message, handshake enum, contents struct, Option, Vec) equal their source; all 256 type codes x 3 body shapes; bodies up to 2^24-1.",
          "Trusts the harness's RFC encoders; CertificateRequest cuts are asserted up to one byte into the length that follows the type list (beyond that the pre-1.2 layout makes a cut body decodable); the equality sub-check relies on the field-by-field conversion to tell when two decoded values differ.", "4/C04"),
  "C05": ("exhaustive sweep of all 65536 extension types through 3 dispatchers and 16 single-purpose parsers + proptest-generated extensions and lists with a reference encoder",
-         "Classification (typed / Grease / Unknown), type-tag conversion, dispatcher agreement, single-purpose parser type discipline are enumerated over the whole 16-bit type space; contents, lists, must-be-empty (alone and inside a list, through the three list parsers) and overlong rules are generated; blocks that decode to field-wise different values must not compare equal.",
+         "Classification (typed / Grease / Unknown), type-tag conversion, dispatcher agreement, single-purpose parser type discipline are enumerated over the whole 16-bit type space; contents, lists, must-be-empty (alone and inside a list, through the three list parsers) and overlong rules are generated; blocks that decode to field-wise different values must not compare equal; the catch-all unknown-extension parser called directly returns exactly the declared bytes.",
          "Trusts the harness's encoders for the 26 typed extensions; dispatcher tables may grow but not shrink relative to the pinned tree.", "4/C05"),
  "C08": ("exhaustive enumeration of the transition relation (25 states x 2 directions x all message kinds incl. 65536 alerts) against an edge-list reference model; proptest-generated content variation and message sequences",
-         "Every cell of the relation is compared with a model transcribed from the documented flows; because the machine is memoryless beyond its state, cell-completeness implies agreement on every finite sequence; content-independence is sampled with generated payloads of every kind; random walks cross-check the composition.",
+         "Every cell of the relation is compared with a model transcribed from the documented flows; because the machine is memoryless beyond its state, cell-completeness implies agreement on every finite sequence; content-independence is sampled with generated payloads of every kind (structured ServerKeyExchange bodies, DER-shaped certificates, OCSP responses); random walks cross-check the composition.",
          "The reference model (vmodel/src/states.rs) is the harness's reading of the flows named in the statement.", "4/C08"),
  "C12": ("exhaustive enumeration: every registry row x 10 columns against an independent re-parse of the IANA text file and a pinned golden copy, all 65536 ids x 4 lookup routes; proptest-generated name perturbations",
          "Registry content, id lookups, derived sizes and name-token consistency are finite and enumerated completely; name lookup is probed with generated near-miss strings, 128 million generated unregistered names and every prefix / suffix of the registry's own name strings; a scratch copy of the tree is built, its list edited (generated row appended, row renamed, row deleted) and built again in the same target directory, and a probe program must see the edited list.",
          "Trusts scripts/tls-ciphersuites.txt as the specification and the golden copy taken from the pinned tree; enum variants compared via Debug names.", "4/C12"),
  "C17": ("exhaustive enumeration of every value of 18 registry newtypes against IANA tables typed into the harness, and of the text 31 composite structures print for their registry-typed fields",
-         "All named constants, Display/Debug of every integer of each domain, all conversions over all u16/u8 values, SignatureScheme split and key_bits for all 65536 groups.",
+         "All named constants, Display/Debug of every integer of each domain, all conversions over all u16/u8 values, SignatureScheme split and key_bits for all 65536 groups; lists of 130 / 300 entries printed whole; Display / LowerHex of ids under format flags.",
          "Trusts the harness's IANA tables; unknown new identifiers printed for unlisted values are tolerated (so adding constants upstream is not an alarm).", "4/C17"),
 }
 
 CHECKS.update({
  "C01": ("proptest-generated inputs (byte soup, every model encoder with 0..3 corruptions, allocation-dense shapes, asset prefixes) through ~120 entry points (plus every public parse function and Nom-deriving type found in the sources of the tree under test at build time that the table does not name) under a counting allocator, panic capture and a watchdog; generated operation histories on the defragmenter; libFuzzer campaigns in the thorough tier",
-         "Every public parsing entry point is called on every generated input with generated extra arguments; results are formatted ({:?}, {:#?}, Display); a panic (debug assertions and overflow checks are on), an allocation beyond 64 KiB + K*len, or a stall is a violation. Histories of up to 40 (thorough 700) operations drive one TlsRecordsParser to the 10 MiB cap. Absence of panics cannot be established by sampling; the evidence reports how much was explored.",
+         "Every public parsing entry point is called on every generated input with generated extra arguments; results are formatted ({:?}, {:#?}, Display, under precision / width / sign / zero / hex flags, and into writers that fail after k bytes); a panic (debug assertions and overflow checks are on), an allocation beyond 64 KiB + K*len, or a stall is a violation. Histories of up to 40 (thorough 700) operations drive one TlsRecordsParser to the 10 MiB cap. Absence of panics cannot be established by sampling; the evidence reports how much was explored.",
          "Termination is observed through a watchdog, not proved; allocation is counted per calling thread.", "4/C01"),
  "C06": ("metamorphic relation P(b) vs P(b++x) over 40 self-delimiting parsers with proptest-generated structures, corruptions and suffixes; pointer-provenance oracle over every reachable slice (hand-written visitor); defragmenter provenance over generated histories",
          "Appending bytes (up to 16 MiB, and zero-filled buffers of 2^32 + k bytes) must not change value or outcome class and must extend the remainder; every non-empty slice reachable from a returned value must lie inside the consumed part of the caller's buffer (or, for defragmented results, inside the internal buffer exposed by the hook).",
          "Values compared after conversion to model types; empty slices carry no provenance.", "4/C06"),
  "C07": ("model-based stateful testing: proptest-generated operation histories interpreted against a reference model (accumulate then one-shot parse) and a shadow fresh parser; targeted split / refusal / size-cap generators",
-         "k-way splits of generated handshake and heartbeat payloads, refusals (foreign type, nocopy, 10 MiB) with state preservation observed through the hook, histories of up to 120 operations in lock step with the model, exact boundary of the size limit, heartbeat messages of up to 3+65535+padding bytes in records within the cap with fragment boundaries steered onto 65535..65539 accumulated bytes.",
+         "k-way splits of generated handshake and heartbeat payloads, refusals (foreign type, nocopy, 10 MiB) with state preservation observed through the hook, histories of up to 120 operations in lock step with the model, exact boundary of the size limit, heartbeat messages of up to 3+65535+padding bytes in records within the cap with fragment boundaries steered onto 65535..65539 accumulated bytes; continuation records of 2^32 +- k bytes must be refused.",
          "The model answers with the public one-shot parser on its own concatenation; where the statement is silent the model adopts the implementation's observable state.", "4/C07"),
  "C09": ("proptest-generated serializable values; oracle = byte equality with the harness's RFC encoder + parse-back round trip + re-serialization; unsupported values must give NotYetImplemented",
          "Messages, records (constructed and obtained by parsing), extensions and extension lists within wire limits (incl. bodies beyond 16 bits); every unsupported handshake variant, message kind and extension; the same records and extension lists through cookie_factory::gen into byte slices and cursors of every capacity around the full length and into a writer taking a few bytes per call (success only with every byte written and the reported position equal to their number).",
@@ -49,19 +49,19 @@ CHECKS.update({
          "Each field's whole integer domain is written into a well-formed structure and read back from the parsed value, for k template variants.",
          "ServerHello legacy version excluded as in the statement.", "4/C11"),
  "C13": ("proptest-generated DH / EC / signature values with an RFC reference encoder, exhaustive curve-type and named-group sweep, reference decoder for parse_content_and_signature",
-         "Exact decode and self-delimitation with trailing bytes, prefix rejection, all 256 curve types, all 65536 named groups, all 65536 (hash, signature) octet pairs through the derived and the hand-written decoders, both negotiation flag values against inputs of both forms.",
+         "Exact decode and self-delimitation with trailing bytes, prefix rejection, clones, caller-supplied content parsers (empty, confined) for parse_content_and_signature, all 256 curve types, all 65536 named groups, all 65536 (hash, signature) octet pairs through the derived and the hand-written decoders, both negotiation flag values against inputs of both forms.",
          "Reference decoder for the two DigitallySigned forms is written in the harness.", "4/C13"),
  "C14": ("proptest-generated SCT lists with an RFC 6962 reference encoder; targeted overlong-entry / overlong-list corruptions",
          "Lists of 0..8 SCTs with full-range fields, single-entry parser, entries exceeding the list, lists exceeding the input, prefixes; lists at the start of buffers of 10 MiB +- 1, 16 MiB and 2^32 + k bytes.",
          "Model encoder per RFC 6962 3.2/3.3.", "4/C14"),
  "C15": ("proptest-generated parsed and constructed hellos (TLS and DTLS); oracle = accessor equals (and aliases) the field, rand_time/rand_bytes by reference computation, cipher accessors against the harness's own registry table",
-         "All trait accessors and inherent getters on parsed TLS/DTLS ClientHello, constructed values with randoms of any length (accessors by method syntax, trait path and trait object must agree; vectors with spare capacity; fields edited after construction), ServerHello constructor and getters; one fresh process per registered id in which that id is the first registry lookup.",
+         "All trait accessors and inherent getters on parsed TLS/DTLS ClientHello, constructed values with randoms of any length (accessors by method syntax, trait path and trait object must agree; vectors with spare capacity; fields edited after construction), ServerHello constructor and getters; accessors through a reference to a reference; one fresh process per registered id in which that id is the first registry lookup.",
          "For randoms shorter than 4 bytes only absence of panics and agreement between the dispatch routes is required.", "4/C15"),
  "C16": ("differential: multi-record parsers vs an explicit loop over the single-record parser on proptest-generated record concatenations with six kinds of endings; alias differential on soup and corrupted structures",
-         "Records, remainder position and failure condition must match the loop exactly; the deprecated alias must be identical including errors.",
+         "Records, remainder position and failure condition must match the loop exactly (also for runs of thousands of identical or empty records); the deprecated alias must be identical including errors.",
          "Records compared after conversion to model types.", "4/C16"),
  "C18": ("configuration enumeration (4 feature sets, complete) + differential execution of a proptest-generated corpus under the three buildable configurations; source scan (also of the macro-expanded crate), compile-time Send/Sync probe per feature set and a multi-threaded lookup stress for the static sub-claims",
-         "Build status per feature set, compile_error text, byte-identical per-input digests of 30 entry points + registry + state machine + defragmenter + the verdict of == between the values decoded from consecutive (near-duplicate) inputs across configurations; forbid(unsafe_code) and absence of the unsafe token; Send + Sync of 77 public types and of the value every public gen_* serializer returns, by type-checking a probe package.",
+         "Build status per feature set, compile_error text (through a dependent package, and for the crate's own library and unit-test harness), byte-identical per-input digests of 30 entry points + registry + state machine + defragmenter + the verdict of == between the values decoded from consecutive (near-duplicate) inputs across configurations; forbid(unsafe_code) and absence of the unsafe token; Send + Sync of 77 public types and of the value every public gen_* serializer returns, by type-checking a probe package.",
          "The static sub-claims are compile-time facts, not decided by generated inputs (stated in DESIGN.md).", "4/C18"),
 })
 
